@@ -184,7 +184,7 @@ namespace
                 }
                 else
                 {
-                    sstream << r << it.data()->to_string_sqf();
+                    sstream << r << it.to_string_sqf();
                 }
             }
             else
@@ -196,7 +196,7 @@ namespace
                 }
                 else
                 {
-                    sstream << it.data()->to_string_sqf();
+                    sstream << it.to_string_sqf();
                 }
             }
         }
